@@ -28,6 +28,10 @@ def run(ctx, rep):
     rep.rule("R19-BUDGET", "after each redeemer the remaining budget is decremented in both dimensions (cpu<->steps, mem<->mem) by the units of the redeemer the evaluation returned, which is also what is reported", floor=4)
     rep.rule("R19-COST", "every evaluation entry point reports cost against the budget its machine was created with", floor=6)
     rep.guarded("R19-COST", lambda: r_cost(sh, rep))
+    rep.rule("R19-CERTS", "phase one and phase two agree on which certificates need a script (same Certificate variants carry a script credential)", floor=1)
+    rep.guarded("R19-CERTS", lambda: r_certs(sh, rep))
+    rep.rule("R19-EXTRA", "only scripts of the transaction's own witness set can be extraneous: reference scripts of resolved inputs count as available, never as surplus", floor=2)
+    rep.guarded("R19-EXTRA", lambda: r_extra(sh, rep))
     rep.rule("R19-FAIL", "a machine error, and a version-aware failed verdict (V3: non-unit result), are returned as Err before a result is built", floor=2)
     rep.rule("R19-ORDER", "collections the ledger orders are sorted when the script context is built (spec table)", floor=8)
     rep.rule("R19-POINTER", "every sort of transaction inputs that yields positions keys on (transaction_id, index); reward accounts and voters use the shared comparators", floor=3)
@@ -345,3 +349,73 @@ def r_lookup(sh, rep):
                 if n["k"] in ("Break", "Return"):
                     bad.append(n)
     rep.check(not bad, "R19-LOOKUP", "from_transaction#loops-run-to-completion", sh.loc(SC, bad[0]) if bad else sh.loc(SC, f), "a loop of DataLookupTable::from_transaction contains `%s` (line %s): scripts / datums listed after that element are never registered, so whether a script is found depends on the order of the resolved inputs" % (bad[0]["k"].lower() if bad else "", bad[0]["s"][0] if bad else ""), sample={"loops": sum(1 for n in walk(f["body"]) if n["k"] in ("For", "While", "Loop"))})
+
+
+def r_certs(sh, rep):
+    """`aiken tx simulate` runs phase one (which scripts and redeemers does the transaction need?) and phase two (find the
+    script of each redeemer). Both enumerate the certificate kinds that are witnessed by their stake credential's script.
+    The two lists are siblings: a kind phase two resolves and phase one does not count makes a correct transaction —
+    script and Publish redeemer present — fail as `extraneous`; the other way round a needed script is never asked for."""
+    def variants(rel, fn_name):
+        f = find_fn(sh.file(rel), fn_name)
+        out = set()
+        for m in matches_in(f["body"]):
+            for a in m["arms"]:
+                alts = pat_alts(a["pat"])
+                vs = {last(pat_head(x) or "") for x in alts if (pat_head(x) or "").startswith("Certificate::")}
+                if len(vs) < 3:
+                    continue
+                src = sh.nsrc(rel, a["pat"]) + sh.nsrc(rel, a["body"])
+                if "ScriptHash" in src or "stake_credential" in src:
+                    out |= vs
+        return f, out
+    f1, p1 = variants(P1, "scripts_needed")
+    f2, p2 = variants(SC, "find_script")
+    if len(p1) < 5 or len(p2) < 5:
+        raise AnchorMissing("certificate arms of scripts_needed / find_script (found %d / %d variants)" % (len(p1), len(p2)))
+    rep.touched(P1, "scripts_needed")
+    rep.touched(SC, "find_script")
+    rep.check(p1 == p2, "R19-CERTS", "certificates#phase-one-equals-phase-two", sh.loc(P1, f1), "phase two resolves a script for %s which phase one does not count as needing one; phase one counts %s which phase two cannot resolve: the simulation rejects a transaction that supplies exactly the scripts and redeemers it needs" % (sorted(p2 - p1), sorted(p1 - p2)), sample={"phase_one": len(p1), "phase_two": len(p2)})
+
+
+def r_extra(sh, rep):
+    """Phase one compares the scripts a transaction needs with the scripts it has. `missing` must look at everything that is
+    available (witness set and reference scripts of the resolved inputs); `extra` — which fails the transaction — only at
+    what the transaction itself carries. DataLookupTable collects both kinds in one table, so feeding that table to the
+    `extra` test rejects any transaction one of whose inputs happens to hold an unrelated reference script."""
+    f = find_fn(sh.file(P1), "validate_missing_scripts")
+    rep.touched(P1, "validate_missing_scripts")
+    params = [i["pat"].get("name") for i in f["sig"]["inputs"] if isinstance(i.get("pat"), dict)]
+    def pname(p):
+        while p.get("k") == "PType":
+            p = p["pat"]
+        return p.get("name") if p.get("k") == "Ident" else None
+
+    loc = {pname(n["pat"]): n["init"] for n in walk(f["body"]) if n["k"] == "Local" and pname(n["pat"]) and n.get("init") is not None}
+    if "extra" not in loc or "missing" not in loc:
+        raise AnchorMissing("locals `missing` and `extra` in validate_missing_scripts")
+
+    def root(e):
+        while e.get("k") == "MethodCall":
+            e = e["recv"]
+        return e.get("p") if e.get("k") == "Path" else None
+
+    ex_root = root(loc["extra"])
+    avail = {x["p"] for x in walk(loc["missing"]) if x.get("k") == "Path" and x["p"] in params} - {root(loc["missing"])}
+    rep.check(ex_root in params and ex_root not in avail, "R19-EXTRA", "validate_missing_scripts#extra-ranges-over-its-own-list", sh.loc(P1, f), "`extra` is computed from `%s`, the same list `missing` uses as the set of available scripts (%s): a reference script on a resolved input that the transaction does not need is reported as extraneous and the simulation fails" % (ex_root, sorted(avail)), sample={"extra_from": ex_root, "available": sorted(avail)})
+    g = find_fn(sh.file(P1), "eval_phase_one")
+    calls = [c for c in walk(g["body"]) if c["k"] == "Call" and call_name(c) == "validate_missing_scripts"]
+    ok = False
+    if calls and ex_root in params:
+        pos = params.index(ex_root)
+        if pos < len(calls[0]["args"]):
+            a = calls[0]["args"][pos]
+            src = sh.nsrc(P1, a)
+            via = ""
+            if a.get("k") == "Call":
+                try:
+                    via = sh.nsrc(P1, find_fn(sh.file(P1), last(call_name(a)))["body"])
+                except AnchorMissing:
+                    via = ""
+            ok = "lookup_table" not in src and "utxos" not in src and ("transaction_witness_set" in src + via)
+    rep.check(ok, "R19-EXTRA", "eval_phase_one#extra-list-is-the-witness-set", sh.loc(P1, g), "the list handed to the `extra` test must be derived from tx.transaction_witness_set alone (not from the lookup table or the resolved inputs)")
